@@ -115,12 +115,16 @@ func c14Doc(paths, methods, feat int) (*spec.Swagger, []c14Slot) {
 		if !vrfBool(t) {
 			continue
 		}
-		name := "/" + vrfStr(t+".name", 1)
+		name := "/" + vrfStr(t+".name", vrfParam("pathlen", 1))
 		for _, n := range names {
 			vrfAssume(n != name)
 		}
 		names = append(names, name)
 		var pi spec.PathItem
+		if vrfBool(t + ".ref") {
+			// a path item may carry a $ref beside its own operations: they remain operations of the document
+			pi.Ref = spec.MustCreateRef("#/x-shared/pathitem")
+		}
 		if methods&1 != 0 {
 			pi.Get = c14Op(t+".get", feat)
 		}
@@ -201,7 +205,7 @@ func vrfH_C14ops() {
 	// lookup by method (any ASCII spelling) and path
 	m := vrfStr("q.method", 7)
 	vrfAssume(c14IsASCII(m))
-	p := vrfStr("q.path", 2)
+	p := vrfStr("q.path", 1+vrfParam("pathlen", 1))
 	var want *spec.Operation
 	for _, sl := range slots {
 		if sl.op != nil && sl.method == c14Upper(m) && sl.path == p {
@@ -212,6 +216,9 @@ func vrfH_C14ops() {
 	vrfAssert("OperationFor", found == (want != nil) && got == want)
 	vrfCover("lookup-with-mixed-case-hits", want != nil && m != c14Upper(m))
 	vrfCover("lookup-misses", want == nil)
+	if vrfParam("pathlen", 1) >= 2 {
+		vrfCover("lookup-of-a-path-holding-an-escape-sequence", want != nil && p == "/~1")
+	}
 
 	// lookup by id: claimed for non-empty ids unique in the document, and for unknown ids
 	id := vrfStr("q.id", 1)
